@@ -248,44 +248,45 @@ Definition getitem (shape : list Z) (a : nd) (idx : list index) : result (list n
   Ok (map (@length nat) poss, orth_take poss a))).
 
 (* ---- d[indices] = value --------------------------------------------------------- *)
-(* numpy broadcasting of a value of shape [vshape] to the index shape [tshape]:
-   the value index corresponding to target index tuple [t]. *)
-Fixpoint bcast_index_rev (vshape_rev t_rev : list nat) : list nat :=
-  match vshape_rev, t_rev with
-  | vs :: rv, i :: rt => (if Nat.eqb vs 1 then 0%nat else i) :: bcast_index_rev rv rt
+(* numpy broadcasting of a value whose shape [vshape] has been left-padded with
+   1s to the array's rank: an extent must be 1 or equal to the target's. *)
+Fixpoint bcast_ok (vshape tshape : list nat) : bool :=
+  match vshape, tshape with
+  | [], [] => true
+  | vs :: rv, ts :: rt => (Nat.eqb vs 1 || Nat.eqb vs ts) && bcast_ok rv rt
+  | _, _ => false
+  end.
+
+(* cartesian product of a list of lists, row-major (itertools.product) *)
+Fixpoint cart {A} (ls : list (list A)) : list (list A) :=
+  match ls with
+  | [] => [[]]
+  | l :: r => flat_map (fun x => map (cons x) (cart r)) l
+  end.
+
+(* along one axis: position k of the selection receives value element k, or
+   element 0 when the value has extent 1 there (broadcast) *)
+Definition axis_pairs (ps : list nat) (vlen : nat) : list (nat * nat) :=
+  if Nat.eqb vlen 1 then map (fun q => (q, 0%nat)) ps
+  else combine ps (seq 0 (length ps)).
+
+(* one store: a tuple of per-axis (position, value index) pairs *)
+Definition store_of (v : nd) (t : list (nat * nat)) : list nat * option Z :=
+  (map fst t, get v (map snd t)).
+
+Fixpoint axis_pairs_all (poss : list (list nat)) (vshape : list nat) : list (list (nat * nat)) :=
+  match poss, vshape with
+  | ps :: rp, vl :: rv => axis_pairs ps vl :: axis_pairs_all rp rv
   | _, _ => []
   end.
 
-Definition bcast_index (vshape t : list nat) : list nat :=
-  rev (bcast_index_rev (rev vshape) (rev t)).
-
-Fixpoint bcast_ok_rev (vshape_rev tshape_rev : list nat) : bool :=
-  match vshape_rev, tshape_rev with
-  | [], _ => true
-  | _ :: _, [] => false
-  | vs :: rv, ts :: rt => (Nat.eqb vs 1 || Nat.eqb vs ts) && bcast_ok_rev rv rt
-  end.
-
-Definition bcast_ok (vshape tshape : list nat) : bool :=
-  bcast_ok_rev (rev vshape) (rev tshape).
-
-(* all index tuples of a shape, row-major *)
-Fixpoint tuples (shape : list nat) : list (list nat) :=
-  match shape with
-  | [] => [[]]
-  | n :: r => flat_map (fun i => map (cons i) (tuples r)) (seq 0 n)
-  end.
-
-Definition map2 {A B C} (f : A -> B -> C) (l1 : list A) (l2 : list B) : list C :=
-  map (fun p => f (fst p) (snd p)) (combine l1 l2).
-
 (* The reference semantics (numpy, each axis independent): element
-   (poss_1[t_1], ..., poss_d[t_d]) receives value[bcast t], stores executed in
-   row-major order of t so that a repeated position keeps the later value. *)
+   (poss_1[t_1], ..., poss_d[t_d]) receives value[t] (broadcast), the stores
+   executed in row-major order of t so that a repeated position keeps the later
+   value. *)
 Definition orth_prog (poss : list (list nat)) (vshape : list nat) (v : nd)
   : list (list nat * option Z) :=
-  map (fun t => (map2 (fun p i => nth i p 0%nat) poss t, get v (bcast_index vshape t)))
-      (tuples (map (@length nat) poss)).
+  map (store_of v) (cart (axis_pairs_all poss vshape)).
 
 (* --- the pairwise decomposition of Data._set_subspace, per list axis --------- *)
 (* One chunk: the positions it addresses (already expanded with Python slice
@@ -353,27 +354,16 @@ Definition axis_blocks (n : Z) (p : pindex) (vlen : nat) (is_list_axis : bool)
     match slice_positions n a b c with
     | None => Err ValueErr
     | Some l =>
-      let ps := map Z.to_nat l in
-      Ok [if Nat.eqb vlen 1 then map (fun q => (q, 0%nat)) ps
-          else combine ps (seq 0 (length ps))]
+      Ok [axis_pairs (map Z.to_nat l) vlen]
     end
   | PList l =>
     if is_list_axis then Ok (map (chunk_pairs vlen) (pair_chunks n l 0))
-    else rbind (posify n l) (fun ps =>
-         Ok [if Nat.eqb vlen 1 then map (fun q => (q, 0%nat)) ps
-             else combine ps (seq 0 (length ps))])
-  end.
-
-(* cartesian product of a list of lists, row-major (itertools.product) *)
-Fixpoint cart {A} (ls : list (list A)) : list (list A) :=
-  match ls with
-  | [] => [[]]
-  | l :: r => flat_map (fun x => map (cons x) (cart r)) l
+    else rbind (posify n l) (fun ps => Ok [axis_pairs ps vlen])
   end.
 
 (* one basic-slice assignment array[i] = value[j]: the stores of a block combo *)
 Definition block_stores (v : nd) (combo : list (list (nat * nat))) : list (list nat * option Z) :=
-  map (fun t => (map fst t, get v (map snd t))) (cart combo).
+  map (store_of v) (cart combo).
 
 Definition is_plist (p : pindex) : bool := match p with PList _ => true | _ => false end.
 
